@@ -37,6 +37,8 @@ func allInstances() []*Instance {
 	regC16(add, p)
 	regC19(add, p)
 	regC03(add, p)
+	regC13b(add, p)
+	regC10b(add, p)
 	regC18(add, p)
 	regC20(add, p)
 	regC20b(add, p)
@@ -528,6 +530,26 @@ func regC20c(add addFn, p pFn) {
 				Stubs: []string{"leakcheck", "randstub", "kdcstub", "asn1havoc", "decryptstub", "lineartime"}, Replay: "stubbed", TimeoutS: 600,
 				Reach: []string{"printed", "exchanged"}, Bound: "as above, then Login and GetServiceTicket against a KDC that is unreachable (kdc0), answers KRB-ERROR code (kdc1) or undecodable bytes (kdc2): returned errors and log lines"})
 		}
+	}
+}
+
+func regC10b(add addFn, p pFn) {
+	add(&Instance{Property: "C10", Name: "as-req-fields", Entry: "messages.VH_C10_ASReqFields", Stubs: []string{"lineartime"}, Replay: "stubbed",
+		Reach: []string{"checked", "renewable"}, Bound: "NewASReq for EVERY configuration of forwardable/proxiable/canonicalize, renew_lifetime and ticket_lifetime (any duration below 2^50 ns), two symbolic etypes, symbolic names; noaddresses"})
+	for _, et := range []int{17, 18, 19, 20, 16, 23} {
+		add(&Instance{Property: "C10", Name: "tgs-req-fields-e" + itoa(et), Entry: "messages.VH_C10_TGSReqFields", Params: p("etype", et), Stubs: []string{"lineartime", "asn1pair", "encpair", "nfolduf", "des3rtkuf"}, Logic: "QF_UFBV", Replay: "stubbed",
+			Reach: []string{"checked"}, Bound: "NewTGSReq for every configuration as above, renewal or not, session key of etype " + itoa(et) + "; ASN.1 and encryption as injective codec pairs; checksum compared with the RFC reference model"})
+	}
+}
+
+func regC13b(add addFn, p pFn) {
+	for t, n := range []string{"Ticket", "APReq", "ASRep", "TGSRep", "KRBPriv"} {
+		add(&Instance{Property: "C13", Name: "marshal-stable-across-decrypt-" + n, Entry: "messages.VH_C13_MarshalStableAcrossDecrypt", Params: p("type", t), Stubs: []string{"lineartime"},
+			Reach: []string{"encoded-twice"}, Bound: n + " with symbolic field values: Marshal before == Marshal after the decrypted part is filled in (asn1.Marshal as an uninterpreted function of its argument)"})
+	}
+	for _, c := range [][2]int{{0, 8}, {1, 8}, {2, 8}, {3, 8}, {2, 63}, {2, 64}, {3, 60}, {3, 90}} {
+		add(&Instance{Property: "C13", Name: "ticket-sequence-framing-n" + itoa(c[0]) + "-l" + itoa(c[1]), Entry: "messages.VH_C13_TicketSequenceFraming", Params: p("n", c[0], "handlelen", c[1]), Stubs: []string{"asn1pair"},
+			Bound: itoa(c[0]) + " tickets whose encodings are opaque strings of " + itoa(c[1]) + " bytes (total length on both sides of the 127/128 and 255/256 length-octet boundaries)"})
 	}
 }
 
